@@ -230,6 +230,17 @@ impl Range {
 
         let file_path_part = components.path.replace(SYMBOL.slash, &FileExt::get_path_separator());
 
+        let climbs_out_of_served_directory = components.path
+            .split(|c| c == '/' || c == '\\')
+            .any(|segment| segment == "..");
+        if climbs_out_of_served_directory {
+            let error = Error {
+                status_code_reason_phrase: STATUS_CODE_REASON_PHRASE.n404_not_found,
+                message: "path is outside of the served directory".to_string()
+            };
+            return Err(error);
+        }
+
         let boxed_static_filepath = FileExt::get_static_filepath(&file_path_part);
         if boxed_static_filepath.is_err() {
             let error = Error {
